@@ -273,6 +273,10 @@ class InterSystemRecurrenceNetwork(InteractingNetworks):
 
         #  Set diagonal of ISRM to zero to avoid self-loops
         ISRM.flat[::self.N + 1] = 0
+        #  if the network has already been constructed, keep it consistent
+        #  with the new recurrence plots
+        if getattr(self, "sp_A", None) is not None:
+            self.adjacency = ISRM
         return ISRM
 
     def set_fixed_recurrence_rate(self, density):
@@ -305,6 +309,10 @@ class InterSystemRecurrenceNetwork(InteractingNetworks):
 
         #  Set diagonal of ISRM to zero to avoid self-loops
         ISRM.flat[::self.N + 1] = 0
+        #  if the network has already been constructed, keep it consistent
+        #  with the new recurrence plots
+        if getattr(self, "sp_A", None) is not None:
+            self.adjacency = ISRM
         return ISRM
 
     #
